@@ -21,6 +21,7 @@ import (
 	"unsafe"
 
 	"github.com/LemoFoundationLtd/lemochain-core/chain"
+	"github.com/LemoFoundationLtd/lemochain-core/chain/consensus"
 	"github.com/LemoFoundationLtd/lemochain-core/chain/deputynode"
 	"github.com/LemoFoundationLtd/lemochain-core/chain/txpool"
 	"github.com/LemoFoundationLtd/lemochain-core/chain/types"
@@ -379,7 +380,40 @@ func newChain(w *node.World, dir string) (*store.ChainDatabase, *deputynode.Mana
 	if err != nil {
 		engine.Failf("NewBlockChain: %v", err)
 	}
+	waitFeedsSubscribed(bc)
 	return db, dm, pool, bc
+}
+
+// waitFeedsSubscribed: NewBlockChain starts the goroutine that forwards the engine's stable/current/confirm feeds to the
+// global bus with a go statement; until that goroutine has subscribed, a stable-block event of the engine goes nowhere.
+// A node that has just started never moves its stable block within its first milliseconds - a replayed behaviour does,
+// and on a loaded machine the event was seen to get lost (1 in ~600 fresh nodes).  So wait for the subscriptions.
+func waitFeedsSubscribed(bc *chain.BlockChain) {
+	dp := reflect.NewAt(reflect.TypeOf(consensus.DPoVP{}), unexportedPtr(bc, "engine")).Elem()
+	deadline := time.Now().Add(waitLimit)
+	for {
+		ready := true
+		for _, name := range []string{"stableFeed", "currentFeed", "confirmFeed", "fetchConfirmsFeed"} {
+			f := dp.FieldByName(name)
+			if !f.IsValid() {
+				engine.Failf("sync harness: consensus.DPoVP has no field %s any more", name)
+			}
+			mu := (*gosync.Mutex)(unsafe.Pointer(f.FieldByName("mu").UnsafeAddr()))
+			mu.Lock()
+			n := f.FieldByName("inbox").Len() + f.FieldByName("sendCases").Len()
+			mu.Unlock()
+			if n < 2 { // one internal case (sendCases) once the feed is initialised + the forwarder's subscription
+				ready = false
+			}
+		}
+		if ready {
+			return
+		}
+		if time.Now().After(deadline) {
+			engine.Failf("sync harness: the chain's feed forwarder did not subscribe within %v", waitLimit)
+		}
+		time.Sleep(200 * time.Microsecond)
+	}
 }
 
 // unexportedPtr returns the pointer stored in an unexported pointer field of *obj (read-only use).
